@@ -73,6 +73,88 @@ def classes_of(d):
     return sorted({n["c"] for _, n in common.tree_nodes(d)})
 
 
+import json
+
+
+def edit_in_place(rng, d, t):
+    """edit the loaded tree `t` (whose dump is `d`) IN PLACE at a node below the root, the way the quick start's
+    "manipulating" section does: another value for a term, or the children of an inner node in another order.
+    Returns the dump the tree must now be equal to, or None. Equality is a function of the CURRENT content:
+    whatever a tree was compared with before must not matter (seeded C09-E: a memoised hash, dropped only when
+    the node itself is assigned to)"""
+    import copy
+    nodes = [(p, n) for p, n in common.tree_nodes(d) if p]
+    if not nodes:
+        nodes = []
+    terms = [(p, n) for p, n in nodes if n["c"] in ("Word", "Phrase")]
+    inner = [(p, n) for p, n in nodes if len(n["ch"]) >= 2 and n["c"].endswith("Operation")]
+    if not terms and not inner:
+        return None
+    d2 = copy.deepcopy(d)
+
+    def at_json(x, p):
+        for i in p:
+            x = x["ch"][i]
+        return x
+
+    def at_obj(x, p):
+        for i in p:
+            x = x.children[i]
+        return x
+    attr_nodes = [(p, n) for p, n in common.tree_nodes(d) if n["ch"] and not n["c"].endswith("Operation")]
+    if attr_nodes and rng.random() < 0.3:
+        # plain attribute assignment (`field.expr = ...`, `range_.high = ...`), not the `children` setter
+        p, n = rng.choice(attr_nodes)
+        i = rng.randrange(len(n["ch"]))
+        repl = gen.P('"edited"') if n["c"] == "Proximity" else gen.W("edited")
+        node = at_obj(t, p)
+        names = list(type(node)._children_attrs)
+        if i < len(names):
+            at_json(d2, p)["ch"][i] = repl
+            setattr(node, names[i], common.load_tree(repl))
+            return d2
+    if terms and (not inner or rng.random() < 0.7):
+        p, n = rng.choice(terms)
+        v = rng.choice(["edited", "bar", "x"]) if n["c"] == "Word" else rng.choice(['"edited"', '"a b"'])
+        at_json(d2, p)["v"] = v
+        at_obj(t, p).value = v
+    else:
+        p, n = rng.choice(inner)
+        order = list(range(len(n["ch"])))
+        rng.shuffle(order)
+        at_json(d2, p)["ch"] = [at_json(d2, p)["ch"][i] for i in order]
+        node = at_obj(t, p)
+        kids = list(node.children)
+        node.children = [kids[i] for i in order]
+    return d2
+
+
+def share_equal_subtrees(o):
+    """make structurally identical sub-trees (same dump, layout included) ONE object, as a program that builds a
+    query from parts does (`fg = FieldGroup(...); AndOperation(SearchField("f", fg), Plus(fg))`). Returns the number
+    of nodes replaced. The verdict on a node depends on where it stands, not on whether the object was met before
+    (seeded C20-E: a visited-id set in `check`)"""
+    seen = {}
+    n = 0
+    stack = [o]
+    while stack:
+        node = stack.pop()
+        kids = list(node.children)
+        new = []
+        for c in kids:
+            key = (type(c).__name__, json.dumps(common.dump_tree(c), sort_keys=True, default=str))
+            if key in seen and seen[key] is not c:
+                new.append(seen[key])
+                n += 1
+            else:
+                seen.setdefault(key, c)
+                new.append(c)
+        if any(a is not b for a, b in zip(kids, new)):
+            node.children = new
+        stack.extend(c for c in new)
+    return n
+
+
 DEEP = 2500
 
 
@@ -104,6 +186,35 @@ def poison(rng, d, fn):
         pass
 
 
+def repeat_a_sibling(rng, d):
+    """`d` with one operand of some operation replaced by a copy of another operand (so that the tree has two
+    structurally identical parts); `d` itself when it has no operation with two operands"""
+    import copy
+    ops = [p for p, n in common.tree_nodes(d) if n["c"].endswith("Operation") and len(n["ch"]) >= 2]
+    if not ops:
+        return d
+    d2 = copy.deepcopy(d)
+    n = d2
+    for i in rng.choice(ops):
+        n = n["ch"][i]
+    i, j = rng.sample(range(len(n["ch"])), 2)
+    n["ch"][j] = copy.deepcopy(n["ch"][i])
+    return d2
+
+
+class _Dag:
+    """builder of `d` with its structurally identical parts made one object"""
+
+    def __init__(self, d):
+        self.d = d
+        self.shared = 0
+
+    def __call__(self):
+        o = common.load_tree(self.d)
+        self.shared = share_equal_subtrees(o)
+        return o
+
+
 class SharedObjects:
     """Long-lived library objects (transformers, printers, checkers, builders) must behave like fresh ones whatever
     they processed before. After a case the same long-lived object (one per configuration `key`) is given the case's
@@ -111,9 +222,12 @@ class SharedObjects:
     every answer is compared with the answer of a freshly made object. A memo keyed on a lossy digest (repr, printed
     form, id) or state left behind by a failing call shows up as a difference."""
 
-    def __init__(self, ctx, rng, label):
+    def __init__(self, ctx, rng, label, known_params=None, pure=True):
         self.ctx, self.rng, self.label = ctx, rng, label
         self.objs = {}
+        self.known_params = known_params    # parameter names of the pinned `__call__` (None: not probed)
+        self.pure = pure                    # the answer is a function of the tree's structure and content only
+        self.probed = set()
 
     @staticmethod
     def _run(call, obj, d):
@@ -124,6 +238,41 @@ class SharedObjects:
 
     def deep_poison(self, d):
         return deep_tree(self.rng, d)
+
+    def structure_only(self, make, call, d, info):
+        """the answer for a tree some of whose equal parts are ONE object (a query assembled from parts) is the answer
+        for the tree with distinct objects: nothing may be keyed on object identity (seeded C20-E)"""
+        d = repeat_a_sibling(self.rng, d)
+        dag = _Dag(d)
+        got = self._run(call, make(), dag)
+        if not dag.shared:
+            return
+        want = self._run(call, make(), d)
+        self.ctx.count("history: equal parts shared as one object")
+        if got != want:
+            self.ctx.fail("%s answers differently when structurally identical parts of the tree are one shared object" %
+                          self.label, dict(info, distinct_objects=want, shared_objects=got))
+
+    def edited_in_place(self, shared, make, call, d, info):
+        """the caller edits a tree it already handed in (another term value, operands in another order) and hands the
+        SAME object in again: the answer must be the one for the new content (a memo keyed on id / hash / a digest
+        taken at the first call shows)"""
+        try:
+            o = common.load_tree(d)
+        except Exception:
+            return
+        first = self._run(call, shared, lambda: o)
+        d2 = edit_in_place(self.rng, d, o)
+        if d2 is None:
+            return
+        got = self._run(call, shared, lambda: o)
+        want = self._run(call, make(), d2)
+        self.ctx.count("history: same object edited in place")
+        if got != want:
+            self.ctx.fail("a long-lived %s handed the same tree object again after an in-place edit answers differently "
+                          "from a fresh one on the edited tree" % self.label,
+                          dict(info, edited=d2, first=first, fresh=want, shared=got))
+            self.objs.clear()
 
     def check(self, key, make, call, d, info, mutants=2, poison=(), deep=0.2):
         key = repr(key)
@@ -139,6 +288,14 @@ class SharedObjects:
             mu = gen.mutate_tree(self.rng, d)
             if mu is not None:
                 todo.append(("a tree differing in one point (%s)" % mu[1], mu[0]))
+        if self.known_params is not None and key not in self.probed:
+            self.probed.add(key)
+            probe_new_parameters(self.ctx, self.label, shared, make, self.known_params, [d], [deep_tree(self.rng, d)],
+                                 lambda x: x, call=call)
+        if self.pure and self.rng.random() < 0.5:
+            self.structure_only(make, call, d, info)
+        if self.rng.random() < 0.3:
+            self.edited_in_place(shared, make, call, d, info)
         for what, dd in todo:
             try:
                 dd() if callable(dd) else common.load_tree(dd)
@@ -156,7 +313,7 @@ class SharedObjects:
                 shared = self.objs[key]
 
 
-def probe_new_parameters(ctx, label, shared, make_fresh, known, good, bad, render):
+def probe_new_parameters(ctx, label, shared, make_fresh, known, good, bad, render, call=None):
     """The pinned entry points take the parameters in `known`. A change may add an OPTIONAL one (a per-call option);
     using it -- on a tree that makes the call fail, then on one that succeeds -- must not change what later plain
     calls on the same long-lived object answer (seeded C13-F: a per-call `spacer` swapped into the instance and
@@ -174,23 +331,25 @@ def probe_new_parameters(ctx, label, shared, make_fresh, known, good, bad, rende
         cands = [not d] if isinstance(d, bool) else [d + 1, 0] if isinstance(d, int) and d is not None else \
             [d + "\n", "\n", "_"] if isinstance(d, str) else ["\n", "_", 1, True, ()]
         for v in cands:
+            plain = call if call is not None else (lambda obj, t: obj(t))
             for tree in list(bad) + list(good):
                 try:
-                    shared(common.load_tree(tree), **{p.name: v})
+                    shared(tree() if callable(tree) else common.load_tree(tree), **{p.name: v})
                 except Exception:
                     pass
                 for g in good:
                     try:
-                        want = ("ok", render(make_fresh()(common.load_tree(g))))
+                        want = ("ok", render(plain(make_fresh(), common.load_tree(g))))
                     except Exception as e:
                         want = ("exc", type(e).__name__)
                     try:
-                        got = ("ok", render(shared(common.load_tree(g))))
+                        got = ("ok", render(plain(shared, common.load_tree(g))))
                     except Exception as e:
                         got = ("exc", type(e).__name__)
                     ctx.count("history: optional parameter probed")
                     if got != want:
                         ctx.fail("after a call with the optional parameter %s=%r the long-lived %s answers plain calls "
                                  "differently from a fresh one" % (p.name, v, label),
-                                 {"tree": g, "previous": tree, "fresh": want, "shared": got})
+                                 {"tree": g, "previous": "<deeply nested>" if callable(tree) else tree, "fresh": want,
+                                  "shared": got})
                         return
